@@ -98,6 +98,8 @@ def run_history(h, peer, rnd, cfg):
 
 
 if __name__ == "__main__":
+    import socket as _socket
+    _socket.setdefaulttimeout(20)        # a peer (or a changed library) that never answers ends a call with an error, not a hang
     hs = json.load(open(sys.argv[2]))
     out, seed, kind, rundir = sys.argv[3], int(sys.argv[4]), sys.argv[5], sys.argv[6]
     rnd = random.Random(seed)
